@@ -720,6 +720,8 @@ def simp(t):
              'Ge': int(a >= b)}.get(op)
         if r is not None:
             return ('const', r)
+    if k == 'bin' and t[2] == t[3] and t[1] in ('Eq', 'Ne', 'Lt', 'Le', 'Gt', 'Ge') and t[2][0] not in ('opaque', 'mutated', 'icall'):
+        return ('const', int(t[1] in ('Eq', 'Le', 'Ge')))
     if k == 'bin':
         # orientation normalisation: Gt(a,b) = Lt(b,a); Ge(a,b) = Le(b,a)
         if t[1] == 'Gt':
@@ -731,6 +733,9 @@ def simp(t):
     if k == 'un' and t[1] == 'Not' and t[2][0] == 'un' and t[2][1] == 'Not':
         return t[2][2]
     return t
+
+
+ESCAPED = ('escaped', ())
 
 
 class Walker:
@@ -816,6 +821,8 @@ class Walker:
             if 'fn' in c:
                 f = c['fn']
                 return ('fn', f.get('resolved') or f['path'])
+            if 'static' in c:
+                return ('static', c['static'])
             if c.get('opaque') == '()':
                 return ('const', 'unit')
             return ('cst', c.get('ty'), c.get('opaque'))
@@ -879,7 +886,17 @@ class Walker:
                         discr = ad['variants'][a['variant']]['discr']
                 return ('variant', a['adt'], a['variant'], a['vname'], ops, discr)
             if isinstance(a, dict) and 'closure' in a:
-                return ('closure', a['closure'], ops)
+                # a closure capturing a local by mutable reference may change it whenever it runs: from now on
+                # the captured place is re-havocked at every call
+                esc = set(env.get(ESCAPED, ()))
+                for o in ops:
+                    if o[0] == 'mref':
+                        esc.add(o[1])
+                        self.counter += 1
+                        self.write_key(env, o[1], ('mutated', o[1], 'closure-capture', self.counter))
+                if esc:
+                    env[ESCAPED] = frozenset(esc)
+                return ('closure', a['closure'], tuple(self.as_value(env, o) for o in ops))
             return ('agg', json.dumps(a), ops)
         if 'repeat' in rv:
             return ('repeat', self.operand(env, rv['repeat']), rv['n'])
@@ -923,6 +940,8 @@ class Walker:
 
     # -- the walk
     def run(self, start=0, stop=None, env=None, follow_back_edges=False):
+        if start is None:
+            start = 0
         self.stop = stop
         self.counter = 0
         p = Path()
@@ -954,6 +973,13 @@ class Walker:
                 return
             onpath = onpath | {bb}
             path.blocks.append(bb)
+            wh = getattr(self, 'widen_headers', None)
+            if wh and bb in wh:
+                for l in self.widen_assigned[bb]:
+                    prev = self.as_value(env, self.read_key(env, (l, ())))
+                    for k in [k for k in env if k[0] == l]:
+                        del env[k]
+                    env[(l, ())] = ('widen', body.path, bb, l, prev)
             blk = body.blocks[bb]
             for i, st in enumerate(blk['stmts']):
                 if st['k'] == 'assign':
@@ -1016,6 +1042,9 @@ class Walker:
                     if a[0] == 'mref':
                         self.counter += 1
                         self.write_key(env, a[1], ('mutated', a[1], ckey, self.counter))
+                for k in env.get(ESCAPED, ()):
+                    self.counter += 1
+                    self.write_key(env, k, ('mutated', k, 'escaped', self.counter))
                 if t['ret'] is None:
                     self._finish(path, env, ('diverge', bb, ckey))
                     return
